@@ -72,6 +72,8 @@ const POSITIONS: &[(&str, &str)] = &[
     ("after-converted-host-rule", ":host{k:v}"),
     // two imports in a row after a rule: both are misplaced
     ("after-rule-and-import", ".r{k:v}@import \"z\";"),
+    // the same file imported twice (the prefix is the same import without conditions): two placeholders
+    ("after-the-same-import", "<the same import>"),
 ];
 
 fn percent_decode(s: &str) -> Option<String> {
@@ -110,7 +112,13 @@ struct Case {
 
 fn make_case(path: &str, form: Form, layer: usize, supports: usize, media: usize, pos: usize, sign: bool, trailing_rule: bool, prefix: bool) -> Case {
     let mut t = String::new();
-    t.push_str(POSITIONS[pos].1);
+    if POSITIONS[pos].0 == "after-the-same-import" {
+        t.push_str("@import ");
+        t.push_str(&spell(path, form));
+        t.push(';');
+    } else {
+        t.push_str(POSITIONS[pos].1);
+    }
     t.push_str("@import ");
     t.push_str(&spell(path, form));
     // half of the spellings write the condition functions in upper / mixed case
@@ -180,6 +188,8 @@ fn check(c: &Case) -> Result<Option<Vec<(String, String)>>, String> {
     } else {
         if c.pos == 1 {
             exp.push(T::Comment("I z".into()));
+        } else if POSITIONS[c.pos].0 == "after-the-same-import" {
+            exp.push(T::Comment("<placeholder>".into()));
         } else if POSITIONS[c.pos].0 == "after-rule-and-import" {
             exp.extend(passthrough(".r{k:v}", &opts));
             exp.push(T::Comment("I z".into()));
@@ -248,7 +258,8 @@ fn check(c: &Case) -> Result<Option<Vec<(String, String)>>, String> {
             problems.push(("import-at-top-flagged".into(), format!("{} warnings", flagged)));
         }
         let misplaced = if c.pos < 2 { 0 } else if POSITIONS[c.pos].0 == "after-rule-and-import" { 2 } else { 1 };
-        if c.pos >= 2 && flagged != misplaced {
+        // (whether an import that follows only imports is flagged is not asserted)
+        if c.pos >= 2 && POSITIONS[c.pos].0 != "after-the-same-import" && flagged != misplaced {
             problems.push(("import-after-rule-not-flagged".into(), format!("position {}: {} imports stand after another rule, {} are flagged", POSITIONS[c.pos].0, misplaced, flagged)));
         }
         if others != 0 {
